@@ -5,6 +5,7 @@ package main
 // website endpoint or to custom domains never change state.
 
 import (
+	"os"
 	"encoding/xml"
 	"fmt"
 	"strings"
@@ -22,6 +23,10 @@ type c33Case struct {
 	KeyClass string `json:"key_class"`
 	Enc      string `json:"encoding"` // std: '/' literal, everything outside unreserved percent-encoded; slash-encoded: '/' sent as %2F too
 	Port     string `json:"host_port"`
+	// HostCase "upper-endpoint": the virtual-hosted twin spells the endpoint part of the Host in
+	// upper case (host names are case-insensitive). The server may or may not recognise it; the
+	// pair is then judged by the weaker rule "same as path-style, or no effect on anything else".
+	HostCase string `json:"host_case,omitempty"`
 }
 
 // s3Encode percent-encodes every byte outside the RFC 3986 unreserved set the
@@ -109,6 +114,9 @@ func (sd *c33Side) spec(c c33Case, op c33Op, vhost bool) reqSpec {
 	s := reqSpec{Method: op.Method, RawQuery: q, Headers: op.Headers, Body: strings.ReplaceAll(op.Body, "{etag}", sd.etag)}
 	if vhost {
 		s.Host = c.Bucket + "." + c.API + c.Port
+		if c.HostCase == "upper-endpoint" {
+			s.Host = c.Bucket + "." + strings.ToUpper(c.API) + c.Port
+		}
 		s.Path = "/"
 		if op.KeyPath {
 			s.Path = "/" + encKey
@@ -352,6 +360,44 @@ func runC33Case(r *vkit.Run, ps *c33Pairs, c c33Case, idx int) {
 			r.Count("pairs_identical", 1)
 			continue
 		}
+		if c.HostCase != "" {
+			// not recognised as virtual-hosted: acceptable as long as the request did not act on
+			// something else - every storage call must still name this bucket (and this key), and
+			// nothing may be modified
+			other := ""
+			for _, cl := range vr.Calls {
+				if cl.Bucket != c.Bucket && !(cl.Bucket == strings.ToLower(vr.Req.Host) || cl.Bucket+c.Port == strings.ToLower(vr.Req.Host) || strings.EqualFold(cl.Bucket, strings.TrimSuffix(vr.Req.Host, c.Port))) {
+					// (a read of the website configuration of a bucket named like the whole Host is the
+					// custom-domain lookup of an unrecognised host, not an action on another resource)
+					other = fmt.Sprintf("%s(bucket=%q key=%q)", cl.Method, cl.Bucket, cl.Key)
+				}
+			}
+			if m := mutatingCalls(vr.Calls); len(m) > 0 && other == "" {
+				other = fmt.Sprintf("%s(bucket=%q key=%q) although the request was not treated like its path-style twin", m[0].Method, m[0].Bucket, m[0].Key)
+			}
+			if os.Getenv("VERIF_DEBUG_C33") != "" {
+				fmt.Fprintf(os.Stderr, "HOSTCASE op=%s host=%s path=%s status=%d calls=%v\n", op.Name, vr.Req.Host, vr.Req.Path, vr.Status, normCalls(vr.Calls))
+			}
+			if other == "" {
+				r.Count("host_case_variant_not_recognised_without_effect(observation)", 1)
+				if err := pair.reset(c, true); err != nil {
+					r.Inconclusive("rig: " + err.Error())
+					return
+				}
+				continue
+			}
+			sig := "vhost-host-case:acts-on-other-resource"
+			if !reported[sig] {
+				reported[sig] = true
+				violation(r, sig, fmt.Sprintf("%s with Host %q (endpoint in upper case) for bucket %q key %q caused %s; path-style twin: status %d calls %v", op.Name, vr.Req.Host, c.Bucket, c.Key, other, pr.Status, normCalls(pr.Calls)),
+					map[string]any{"kind": "pair", "case": c, "first_diverging_op": op.Name, "path_style": pr, "virtual_hosted": vr})
+			}
+			if err := pair.reset(c, true); err != nil {
+				r.Inconclusive("rig: " + err.Error())
+				return
+			}
+			continue
+		}
 		r.Count("pairs_diverging", 1)
 		sig := fmt.Sprintf("vhost-diverges:%s:%s", rel, c33Feature(c))
 		if !reported[sig] {
@@ -559,6 +605,10 @@ func runC33(tier, replay string) {
 				c.Enc = enc
 				if rg.Chance(30) {
 					c.Port = vkit.Pick(rg, []string{":9000", ":80", ":443"})
+				}
+				if rg.Chance(20) {
+					c.HostCase = "upper-endpoint"
+					r.Count("pairs_with_upper_case_endpoint_in_host", 1)
 				}
 				r.Count("key_class:"+c.KeyClass, 1)
 				r.Count("encoding:"+c.Enc, 1)
